@@ -10,21 +10,12 @@ import (
 // ---------------------------------------------------------------------------
 // part "once": a sampler that lets the first entry per (level, message)
 // through and drops later ones (first=1, thereafter=0). Every shape is driven
-// twice with the same level and message on a fresh tree: the first call must
+// twice with the same level and message (fresh tree per front end): the first call must
 // behave as if the sampler were transparent, the second must reach nothing
 // below the sampler (hooks around it must not fire) for the named levels;
 // out-of-range levels are never sampled.
 
 var onceFrontEnds = []string{"Core.Check+CheckedEntry.Write", "Logger.Log", "Sugar.Logw"}
-
-func setSpent(r *rnode) {
-	if r.k == kOnce {
-		r.spent = true
-	}
-	for _, c := range r.kids {
-		setSpent(c)
-	}
-}
 
 func onceShapes() []*node {
 	by := genTrees(2)
@@ -45,13 +36,15 @@ func onceShapes() []*node {
 
 // evalOnce runs one shape; returns the number of log calls made.
 func evalOnce(rp *reporter, n *node) (calls int64, ok bool) {
-	for _, l := range boundaryLevels {
-		for _, name := range onceFrontEnds {
-			fe := feByName(name)
-			t, built := newRT(rp, n, lInfo, false)
-			if !built {
-				return calls, false
-			}
+	// one fresh tree per front end: budgets are per (level, message), so the
+	// levels do not interfere with each other
+	for _, name := range onceFrontEnds {
+		fe := feByName(name)
+		t, built := newRT(rp, n, lInfo, false)
+		if !built {
+			return calls, false
+		}
+		for _, l := range boundaryLevels {
 			for call := 1; call <= 2; call++ {
 				call := call
 				ci := callInfo{part: "once", fe: fe.name, family: fe.family, field: fe.field, msg: "same",
@@ -64,7 +57,6 @@ func evalOnce(rp *reporter, n *node) (calls int64, ok bool) {
 				}
 				t.run(rp, &ci, l, func() { fe.call(t, zapcore.Level(l), ci.msg) })
 				calls++
-				setSpent(t.model)
 			}
 		}
 	}
@@ -89,6 +81,6 @@ func partOnce(rp *reporter) *onceStats {
 		}
 		mu.Unlock()
 	})
-	st.sample = map[string]any{"once_shape": shapes[len(shapes)/2].String(), "driven": "twice per level and front end with the same message on a fresh tree"}
+	st.sample = map[string]any{"once_shape": shapes[len(shapes)/2].String(), "driven": "twice per level with the same message, fresh tree per front end"}
 	return st
 }
